@@ -343,6 +343,9 @@ fn run_workload(ctx: &mut Ctx, wid: usize, model_ops: &str, stmts: &[String], ou
     let mut states: Vec<Vec<String>> = vec![dump(&ctx.rt, &db)];
     let mut outcomes = vec![];
     let mut db = Some(db);
+    let mut failed_at: Option<usize> = None;
+    // (manifest.json content before the last rename, statement index of that rename)
+    let mut lost: Vec<serde_json::Value> = vec![];
     for (i, s) in stmts.iter().enumerate() {
         rec.lock().unwrap().stmt = i as i64;
         let o = if s.trim() == "REOPEN" {
@@ -353,9 +356,12 @@ fn run_workload(ctx: &mut Ctx, wid: usize, model_ops: &str, stmts: &[String], ou
                     Outcome::Ok(vec![])
                 }
                 Err((c, m)) => {
-                    out.push(json!({"type": "skip", "workload": wid, "why": format!("clean reopen failed {c}: {m}")}));
-                    verif::clear();
-                    return;
+                    // a clean reopen that fails is itself a result (C04: "reopening succeeds");
+                    // the workload ends here, the statements before it are still crashed
+                    out.push(json!({"type": "reopen-fails", "workload": wid, "stmt": i, "class": c, "msg": m.chars().take(200).collect::<String>(),
+                        "stmts": stmts}));
+                    failed_at = Some(i);
+                    break;
                 }
             }
         } else if let Some(o) = special(db.as_ref().unwrap(), &ctx.rt, s) {
@@ -366,11 +372,38 @@ fn run_workload(ctx: &mut Ctx, wid: usize, model_ops: &str, stmts: &[String], ou
         outcomes.push(o.class().to_string());
         // the recorder must not see the dump's reads (they have no persist points anyway)
         states.push(dump(&ctx.rt, db.as_ref().unwrap()));
+        // lost-rename image of the acknowledged state: manifest.json as it was before the last
+        // rename, the current manifest.json as manifest.tmp.json
+        {
+            let pts = &rec.lock().unwrap().points;
+            let mut before: Option<Vec<u8>> = None;
+            for n in 0..pts.len() {
+                if pts[n].name == "persist.tmp.rename" {
+                    before = Some(pts[n].snap.get("manifest.json").and_then(|x| x.clone()).unwrap_or_default());
+                }
+            }
+            if let Some(old) = before {
+                let mut img = snap_dir(&dir);
+                if let Some(Some(cur)) = img.get("manifest.json").cloned() {
+                    img.insert("manifest.tmp.json".into(), Some(cur));
+                    img.insert("manifest.json".into(), Some(old));
+                    verif::clear();
+                    let r = reopen_image(ctx, &img, false, false);
+                    install_recorder(rec.clone());
+                    lost.push(json!({"stmt": i, "class": r.class, "same": r.class == "ok" && r.dump == *states.last().unwrap(), "dump": r.dump}));
+                }
+            }
+        }
     }
+    let stmts: Vec<String> = match failed_at { Some(i) => stmts[..i].to_vec(), None => stmts.to_vec() };
+    let stmts = &stmts[..];
     verif::clear();
     let final_snap = snap_dir(&dir);
     drop(db);
-    let points = rec.lock().unwrap().points.clone();
+    let mut points = rec.lock().unwrap().points.clone();
+    if let Some(f) = failed_at {
+        points.retain(|p| p.stmt < f as i64);
+    }
     let _ = std::fs::remove_dir_all(&dir);
 
     // observed persistence steps per statement (the tie to the model's `psteps`)
@@ -390,7 +423,7 @@ fn run_workload(ctx: &mut Ctx, wid: usize, model_ops: &str, stmts: &[String], ou
         }
     }
     out.push(json!({"type": "workload", "workload": wid, "model_ops": model_ops, "stmts": stmts, "outcomes": outcomes,
-        "states": states, "npoints": points.len(),
+        "states": states, "npoints": points.len(), "lost_rename": lost,
         "steps": steps.iter().map(|(k, v)| (k.to_string(), v.clone())).collect::<BTreeMap<_, _>>()}));
 
     // crash images
@@ -474,8 +507,8 @@ fn run_workload(ctx: &mut Ctx, wid: usize, model_ops: &str, stmts: &[String], ou
             let do_recrash = if ctx.thorough {
                 kind == "at-point" || j % 5 == 0
             } else {
-                (kind == "at-point" && (n % 4 == 0 || p.name.contains("dv") || p.name.contains("precommit") || p.name.contains("vacuum")))
-                    || (kind != "at-point" && j % 7 == 0)
+                (kind == "at-point" && (n % 6 == 0 || p.name.contains("dv") || p.name.contains("precommit") || p.name.contains("vacuum")))
+                    || (kind != "at-point" && j % 11 == 0)
             };
             if r.class == "ok" && do_recrash {
                 let rp = r.recovery_points.clone();
@@ -536,18 +569,25 @@ fn gen_workload(r: &mut Rng) -> (String, Vec<String>) {
     let mut sql = vec![];
     let mut tables: Vec<&str> = vec![];
     let mut next_a = 1;
-    let n = r.range(3, 6);
+    let n = r.range(3, 7);
+    // row-sets per table since creation / last compaction, and whether a delete vector exists
+    let mut nrs: std::collections::HashMap<&str, usize> = Default::default();
+    let mut has_dv: std::collections::HashMap<&str, bool> = Default::default();
+    let mut compacted_with_dv: Vec<&str> = vec![];
     for step in 0..n {
-        let choice = if tables.is_empty() { 0 } else { r.below(10) };
+        let choice = if tables.is_empty() { 0 } else { r.below(13) };
         match choice {
             0 | 1 if tables.len() < 2 => {
                 let t = if tables.contains(&"t") { "u" } else { "t" };
                 tables.push(t);
+                nrs.insert(t, 0);
+                has_dv.insert(t, false);
                 model.push(format!("(create {t} 2)"));
                 sql.push(format!("create table {t}(a int, b int)"));
             }
             0..=4 => {
                 let t = *r.pick(&tables);
+                *nrs.get_mut(t).unwrap() += 1;
                 let k = r.range(1, 3);
                 let rows: Vec<(i64, i64)> = (0..k)
                     .map(|_| {
@@ -562,6 +602,9 @@ fn gen_workload(r: &mut Rng) -> (String, Vec<String>) {
                 let t = *r.pick(&tables);
                 let c = r.range(0, next_a + 1);
                 let (op, mop) = *r.pick(&[(">=", "ge"), ("<", "lt"), ("=", "eq")]);
+                if nrs[t] > 0 {
+                    has_dv.insert(t, true);
+                }
                 model.push(format!("(delete {t} {mop} {c})"));
                 sql.push(format!("delete from {t} where a {op} {c}"));
             }
@@ -569,9 +612,33 @@ fn gen_workload(r: &mut Rng) -> (String, Vec<String>) {
                 model.push("(reopen)".into());
                 sql.push("REOPEN".into());
             }
+            10 | 11 => {
+                // one compactor pass: only when at most one table has two or more row-sets (the
+                // pass visits tables in hash order; with one candidate the new ids are determined)
+                let cands: Vec<&str> = tables.iter().filter(|t| nrs[**t] >= 2).cloned().collect();
+                if cands.len() == 1 {
+                    let t = cands[0];
+                    model.push(format!("(compact {t})"));
+                    sql.push("COMPACT".into());
+                    nrs.insert(t, 1);
+                    if has_dv[t] {
+                        compacted_with_dv.push(t);
+                    }
+                } else {
+                    model.push("(vacuum)".into());
+                    sql.push("VACUUM".into());
+                }
+            }
+            12 => {
+                model.push("(vacuum)".into());
+                sql.push("VACUUM".into());
+            }
             _ => {
-                if step > 1 && r.chance(1, 2) {
-                    let t = *r.pick(&tables);
+                // (DROP of a table whose compacted-away row-sets had delete vectors makes the
+                // next open panic — corpus case, known finding; not generated)
+                let droppable: Vec<&str> = tables.iter().filter(|t| !compacted_with_dv.contains(*t)).cloned().collect();
+                if step > 1 && r.chance(1, 2) && !droppable.is_empty() {
+                    let t = *r.pick(&droppable);
                     model.push(format!("(drop {t})"));
                     sql.push(format!("drop table {t}"));
                     tables.retain(|x| *x != t);
